@@ -1,10 +1,11 @@
 (** Dispatcher of executable models: property id -> run function.
     [run prop ops] maps each harness operation of a case to the model's
     canonical output tokens. *)
-From Ferrous Require Import Base.Bytes Model.Resp Model.RunBase Model.RunSrv.
+From Ferrous Require Import Base.Bytes Model.Resp Model.RunBase Model.RunSrv Model.RunRdb.
 Open Scope Z_scope.
 
 Definition run (prop : bytes) (ops : list (list tok)) : list (list tok) :=
   if beq prop (bs "C20") then run_c20 ops
   else if beq prop (bs "C01") || beq prop (bs "C03") || beq prop (bs "C04") then run_srv ops
+  else if beq prop (bs "C09") || beq prop (bs "C10") then run_rdb ops
   else [[TB (bs "NOMODEL")]].
